@@ -174,6 +174,38 @@ def run(M, rep, tier, only=None):
             rep.check(R6, key, bad is None and n > 0, bad[1] if bad else "write_column never writes", site=f.file + ":%d" % f.node.lineno,
                       detail=describe_path(bad[0]) if bad else None)
 
+    # ---------------------------------------------------------------- R9: text columns of append_column
+    R9 = rep.rule("C16.R9", "an appended text column is stored as variable-length text, whether its type was given or inferred", floor=1,
+                  technique="guard presence / argument value on all abstract paths")
+    f = nctx.member("DataFrame", "append_column")
+    if f is None:
+        rep.bad(R9, "DataFrame.append_column", "required mechanism not found")
+    else:
+        bad = None
+        ninf = 0
+        for p in nctx.paths(f, "DataFrame", max_paths=30000):
+            crea = [e for e in p.events if e.kind == "layer" and e.op == "H5Group.create_dataset"]
+            if not crea:
+                continue
+            inferred = any(a == ("isnone", ("param", "datatype")) and v is True for a, v in p.decisions)
+            sub = [(a, v) for a, v in p.decisions if a[0] == "truthy" and a[1][0] == "call" and a[1][1] == "issubclass"]
+            arr = [e for e in p.events if e.kind == "ext" and e.op in ("numpy.array", "numpy.asarray") and e.kw.get("dtype") is not None]
+            used = arr[-1].kw["dtype"].t if arr else None
+            if inferred:
+                ninf += 1
+                tests = sub + [(a, v) for a, v in p.decisions if a[0] == "truthy" and a[1][0] == "call" and str(a[1][1]).endswith("isclass")]
+                on_inferred = [(a, v) for a, v in tests if a[1][2] and a[1][2][0] != ("param", "datatype") and a[1][2][0] != ("const", None)]
+                if not on_inferred:
+                    bad = (p, "when the column type is inferred from the values it is never tested for being text: a text column is created "
+                           "with a fixed-width NumPy string type that HDF5 cannot store (after the old table was already deleted)")
+                    break
+            text = [v for a, v in sub if v is True]
+            if text and used is not None and not ("vlen" in show(used) or "string_dtype" in show(used)):
+                bad = (p, "a text column is created with type %s instead of the variable-length text type" % show(used)[:60])
+                break
+        rep.check(R9, "DataFrame.append_column", bad is None and ninf > 0, bad[1] if bad else "no path infers the column type",
+                  site=f.file + ":%d" % f.node.lineno, detail=describe_path(bad[0], 30) if bad else None)
+
     # ---------------------------------------------------------------- R5
     cg = ctx.cg
     nraw = 0
